@@ -12,6 +12,8 @@ import json, os, re, shutil, subprocess, sys, glob
 ID, K = sys.argv[1], sys.argv[2]
 TIER = sys.argv[3] if len(sys.argv) > 3 else "quick"
 ROUND = "7"
+XREPO = os.environ.get("X_REPO", "/repo")
+XVERIF = os.environ.get("X_VERIF", "/verif")
 base = "/tmp/seed%s/%s" % (os.environ.get("X_ROUND", "7"), ID)
 out = "%s/out/%s" % (base, K)
 wt = base + "/wt"
@@ -84,25 +86,25 @@ except OSError:
     pass
 res["stated"] = stated
 os.makedirs("/tmp/evid.x7", exist_ok=True)
-for f in glob.glob("/verif/evidence/*.json"):
+for f in glob.glob(XVERIF + "/evidence/*.json"):
     shutil.copy(f, "/tmp/evid.x7/")
-rc, o = sh(["git", "-C", "/repo", "apply", patch])
+rc, o = sh(["git", "-C", XREPO, "apply", patch])
 res["checks"] = {}
 if rc == 0:
     only = os.environ.get("X_ONLY", "")
     want = sorted(set(re.findall(r"C\d\d", stated))) if only == "stated" else ["C%02d" % n for n in range(1, 18)]
     for pid in want:
-        p = subprocess.run(["./check", pid, "--tier", "quick"], cwd="/verif", stdout=subprocess.PIPE, stderr=subprocess.STDOUT, text=True)
+        p = subprocess.run(["./check", pid, "--tier", "quick"], cwd=XVERIF, env=dict(os.environ, VERIF_REPO=XREPO), stdout=subprocess.PIPE, stderr=subprocess.STDOUT, text=True)
         sig = re.search(r"sig=(\S+)", p.stdout)
         res["checks"][pid] = {"rc": p.returncode, "sig": sig.group(1)[:120] if sig and p.returncode == 1 else "", "harness": (re.search(r"HARNESS-ERROR.*", p.stdout) or [""])[0][:160] if p.returncode == 2 else ""}
-    sh(["git", "-C", "/repo", "checkout", "--", "."])
-    sh(["git", "-C", "/repo", "clean", "-fdq", "--", "src", "tests"])
+    sh(["git", "-C", XREPO, "checkout", "--", "."])
+    sh(["git", "-C", XREPO, "clean", "-fdq", "--", "src", "tests"])
 else:
     res["checks"] = {"error": "patch does not apply to /repo: " + o[:300]}
 for f in glob.glob("/tmp/evid.x7/*.json"):
-    shutil.copy(f, "/verif/evidence/")
+    shutil.copy(f, XVERIF + "/evidence/")
 res["caught_by"] = sorted(k for k, v in res["checks"].items() if isinstance(v, dict) and v.get("rc") == 1)
-dst = "/verif/seeded/X%s-%s-%s" % (os.environ.get("X_ROUND", "7"), ID, K)
+dst = XVERIF + "/seeded/X%s-%s-%s" % (os.environ.get("X_ROUND", "7"), ID, K)
 if os.path.exists(dst):
     shutil.rmtree(dst)
 os.makedirs(dst)
